@@ -137,7 +137,7 @@ def plan_sessions(prop, tier, pars):
     """Which (par, fault positions) to run for the property."""
     jobs = []   # (par, 'faults' | 'plain')
     for p in pars:
-        bad = (not p["nameOK"]) or p["marker"] == "absent" or p["ha"] == "passive"
+        bad = (not p["nameOK"]) or p["marker"] == "absent" or p["ha"] in ("passive", "suspended")
         if prop == "C06":
             if p["verb"] == "approve":
                 if not p["nameOK"]:
